@@ -687,7 +687,11 @@ func appendToBuilder(b array.Builder, dt arrow.DataType, value any) error {
 		}
 		b.(*array.Float32Builder).Append(float32(v))
 	case arrow.BOOL:
-		b.(*array.BooleanBuilder).Append(value.(bool))
+		v, ok := value.(bool)
+		if !ok {
+			return fmt.Errorf("expected bool for BOOL, got %T", value)
+		}
+		b.(*array.BooleanBuilder).Append(v)
 	case arrow.BINARY:
 		if as, ok := value.(ArrowSerializable); ok {
 			data, err := serializeArrowSerializable(as)
@@ -696,7 +700,11 @@ func appendToBuilder(b array.Builder, dt arrow.DataType, value any) error {
 			}
 			b.(*array.BinaryBuilder).Append(data)
 		} else {
-			b.(*array.BinaryBuilder).Append(value.([]byte))
+			v, ok := value.([]byte)
+			if !ok {
+				return fmt.Errorf("expected []byte for BINARY, got %T", value)
+			}
+			b.(*array.BinaryBuilder).Append(v)
 		}
 	case arrow.LARGE_BINARY:
 		v, ok := asBytes(value)
